@@ -183,7 +183,7 @@ func checkDiagDelivery(sc *bw.Scenario, w *world, res *vresult, out *simkit.Outc
 			sig = s[strings.Index(s, "|")+1:]
 		}
 		want := counts[e.ID]
-		if r.va.Tracer != "" && nt == 0 {
+		if (r.va.Tracer == "none" || r.va.Tracer == "nodiag") && nt == 0 {
 			// no tracer (or none that takes diagnostics) in this variant: delivery to the caller is all there is
 			nt = want
 			out.Probe("diagnostics-without-tracer")
